@@ -10,7 +10,8 @@ build() { cmake -G Ninja -S $W -B $W/_build -DCMAKE_BUILD_TYPE=RelWithDebInfo >/
 demo() { # compile the demo against this worktree
   if [ -f $OUT/demo.sh ]; then (cd $OUT && WT=$W bash demo.sh); return $?; fi
   sed "s#/tmp/wt_[A-Za-z0-9_]*#$W#g" $OUT/demo.c > $W/demo_v.c
-  cc -I$W/SRC -DUSE_VENDOR_BLAS $W/demo_v.c $W/_build/SRC/libsuperlu.a -lopenblas -lm -o $W/demo_v 2>$W/demo_cc.log || { cat $W/demo_cc.log | head -5; return 99; }
+  EXTRA=""; [ -f $OUT/ccargs ] && EXTRA=$(sed "s#\$W#$W#g" $OUT/ccargs)
+  cc -I$W/SRC -DUSE_VENDOR_BLAS $W/demo_v.c $EXTRA $W/_build/SRC/libsuperlu.a -lopenblas -lm -o $W/demo_v 2>$W/demo_cc.log || { cat $W/demo_cc.log | head -5; return 99; }
   (cd $W && timeout 300 ./demo_v >$W/demo_out.txt 2>&1); return $?
 }
 {
